@@ -100,7 +100,7 @@ def run(f, fixture, rep, cfg, tier):
         "left neighbour may contain the separator must search from the right; the normalised form's epoch operand is \"0\" "
         "exactly on the is_empty branch; panic-site audit of the parsing functions.")
     rep.trusted = ["rustc nightly MIR / expanded AST", "str::split_once / rsplit_once semantics"]
-    for r, d in (("R1", "CompressionType Display/FromStr tables"), ("R2", "separator agreement"), ("R3", "search direction"), ("R4", "normalised epoch"), ("R5", "no panic"), ("R6", "components stored as given")):
+    for r, d in (("R1", "CompressionType Display/FromStr tables"), ("R2", "separator agreement"), ("R3", "search direction"), ("R4", "normalised epoch"), ("R5", "no panic"), ("R6", "components stored as given"), ("R7", "equality is symmetric")):
         rep.rule(r, d)
 
     # ---- R1 ---------------------------------------------------------------------------------
@@ -221,6 +221,40 @@ def run(f, fixture, rep, cfg, tier):
             lits = set(re.findall(r'"((?:[^"\\]|\\.)*)"', t))
             rep.check(lits <= {""} and "phi(" not in t, "R6", "slices|%s" % fmt_key(b.path), "%s returns pieces of its input (a missing part is \"\")" % fmt_key(b.path),
                       "%s can return the literal(s) %s or a value chosen by a test: a component does not come from the text" % (b.path, sorted(lits - {""})), b.span)
+
+    # ---- R7 equality treats both operands alike --------------------------------------------------------------------
+    # parse(format(x)) == x is stated with `==`: the special cases of Evr's equality (a missing epoch equals "0") must hold
+    # whichever side the parsed value is on.  Necessary condition checked: the set of comparisons eq() makes is closed under
+    # exchanging self and other.
+    eqs = [b for b in f.body_list if b.impl_trait == "std::cmp::PartialEq" and (b.impl_self or "").startswith("version::Evr<") and b.name == "eq" and not b.derived]
+    if rep.anchor(len(eqs) == 1, "R7", "impl PartialEq for Evr"):
+        eb = eqs[0]
+        teb = TermBuilder(eb)
+        p1, p2 = eb.local_name(1) or "_1", eb.local_name(2) or "_2"
+
+        def side(op):
+            r = render(teb.term(op))
+            for lf in eb.origins(op, passthrough={}):
+                if lf["kind"] == "const" and lf["k"].get("alloc_chain") is not None:
+                    try:
+                        return "lit:" + bytes.fromhex(lf["k"]["alloc_chain"][-1]).decode()
+                    except Exception:
+                        return "lit:?"
+            r = re.sub(r"^%s(?=\.|$)" % re.escape(p1), "A", r)
+            r = re.sub(r"^%s(?=\.|$)" % re.escape(p2), "B", r)
+            return r
+        comps = set()
+        for c in eb.calls():
+            if c.decl in ("std::cmp::PartialEq::eq", "std::cmp::PartialEq::ne") and len(c.args) == 2:
+                comps.add(frozenset((side(c.args[0]), side(c.args[1]))))
+            elif re.search(r"::(is_empty|len)$", c.decl) and c.args:
+                comps.add(frozenset((side(c.args[0]), c.decl.rsplit("::", 1)[-1] + "()")))
+
+        def swap(x):
+            return re.sub(r"^(A|B)(?=\.|$)", lambda m: "B" if m.group(1) == "A" else "A", x)
+        swapped = {frozenset(swap(x) for x in cset) for cset in comps}
+        rep.check(bool(comps) and comps == swapped, "R7", "evr|eq-symmetric", "Evr::eq makes the same comparisons for (a, b) and (b, a)",
+                  "Evr::eq is not symmetric: it tests %s for one operand order only" % sorted(sorted(x) for x in (comps ^ swapped))[:4], eb.span)
 
     # ---- R5 ------------------------------------------------------------------------------------------
     roots = []
